@@ -232,7 +232,7 @@ theorem map_account_modify (l : List (OutPosting String String)) (u : Nat) (amt 
     | zero => simp
     | succ n => simp [ih]
 
-theorem fillConverted_account (a1 a2 : SingleAmount String) (p : OutPosting String String) :
+theorem fillConverted_account_str (a1 a2 : SingleAmount String) (p : OutPosting String String) :
     (fillConverted a1 a2 p).account = p.account := by
   unfold fillConverted
   split
@@ -278,7 +278,7 @@ theorem finishTxn_accounts {prec : String → Option Nat} {date : Date} {tst : T
         · split at hcb
           · simp at hcb
             rw [← hcb.1]
-            simp [List.map_map, Function.comp_def, fillConverted_account]
+            simp [List.map_map, Function.comp_def, fillConverted_account_str]
           · simp at hcb
       intro a ha
       simp only [List.mem_append] at ha
